@@ -449,12 +449,57 @@ def build_object(cname, val, scenario, events):
     return obj
 
 
+class CalleePreconditionViolated(BaseException):
+    """A stubbed callee that is itself under contract was called in a state that its `requires` excludes (the native counterpart of
+    the prover's `pre:` obligation).  BaseException: it must not be swallowed by an `except Exception` of the code under test."""
+
+    def __init__(self, qual, clause):
+        super().__init__('%s called with its precondition false: %s' % (qual, clause))
+        self.qual, self.clause = qual, clause
+
+
+def _with_precheck(stub, obj, file, qual, events):
+    fn = lang.REGISTRY['contracts'].get((file, qual))
+    if fn is None:
+        return stub
+    try:
+        params, clauses, _ = parse_contract(fn)
+    except Exception:
+        return stub
+    reqs = [c for kind, c in clauses if kind == 'requires']
+    if not reqs:
+        return stub
+
+    def checked(*a, **kw):
+        try:
+            names = [p for p, _ in params]
+            vals = dict(zip(names, (obj,) + tuple(a)))
+            vals.update({k: v for k, v in kw.items() if k in names})
+            if len(vals) == len(names):
+                pa = {p: _plain(v) for p, v in vals.items()}
+                E0 = Evaluator(CURRENT_MOD[0], params, pa, pa, events)
+                for c in reqs:
+                    ok = True
+                    try:
+                        ok = bool(E0.ev(c.args[0], 'pre'))
+                    except Exception:
+                        ok = True           # unevaluable: no verdict
+                    if not ok:
+                        raise CalleePreconditionViolated(qual, ast.unparse(c.args[0])[:160])
+        except CalleePreconditionViolated:
+            raise
+        except Exception:
+            pass
+        return stub(*a, **kw)
+    return checked
+
+
 def install_stubs(obj, scenario, events):
     for (file, qual), kw in lang.REGISTRY['opaques'].items():
         cname, mname = qual.split('.')
         if any(k.__name__ == cname for k in type(obj).__mro__):
             ev = kw.get('event', mname)
-            setattr(obj, mname, make_stub(ev, scenario, events))
+            setattr(obj, mname, _with_precheck(make_stub(ev, scenario, events), obj, file, qual, events))
 
 
 def install_class_stubs(objs, scenario, events):
@@ -738,12 +783,71 @@ def _run_case(mod, file, qualname, scenario):
                         if 'ensures' in kw:
                             chk('raises#%d:ensures' % k, kw['ensures'])
                         break
+        if isinstance(exc, CalleePreconditionViolated):
+            matched = True
+            failed.append('pre:%s: %s' % (exc.qual, exc.clause))
         if not matched:
-            failed.append('no-unexpected-exception: %s: %s' % (type(exc).__name__, str(exc)[:200]))
+            why = _harness_artifact(exc)
+            if why:
+                # the exception comes from the harness, not from the code under contract: never a verdict
+                unevaluable.append('no-unexpected-exception: %s: %s (%s)' % (type(exc).__name__, str(exc)[:200], why))
+            else:
+                failed.append('no-unexpected-exception: %s: %s' % (type(exc).__name__, str(exc)[:200]))
     out['failed'] = failed
     out['unevaluable'] = unevaluable
     out['status'] = 'contract-violated' if failed else ('contract-unevaluable' if unevaluable else 'contract-holds')
     return out
+
+
+def _declared_events():
+    R = lang.REGISTRY
+    evs = set()
+    for kw in R['opaques'].values():
+        if kw.get('event'):
+            evs.add(kw['event'])
+    for name, kw in R['externs'].items():
+        evs.add(kw.get('event', name))
+        evs.add(name)
+    for (file, qual) in R['contracts']:
+        evs.add(qual)
+    return evs
+
+
+def _is_standin_class(cname):
+    for mn, mod in list(sys.modules.items()):
+        if mod is not None and (mn.startswith('contracts.') or mn.startswith('pyvc.') or mn.startswith('spec.')):
+            c = getattr(mod, cname, None)
+            if isinstance(c, type) and getattr(c, '__module__', '') == mn:
+                return True
+    return False
+
+
+def _harness_artifact(exc):
+    """reason when an exception escaping the function under contract was produced by the harness itself:
+    (a) a raise injected at a callee the sidecar does not declare (the prover models an undeclared external call as one that may
+        raise; replaying that choice says nothing about the real callee);
+    (b) a TypeError / AttributeError raised inside a stand-in of the harness (a stub that lacks a method or a parameter)."""
+    if isinstance(exc, OpaqueRaised):
+        if exc.name not in _declared_events():
+            return 'raise injected at the undeclared callee %s' % exc.name
+        return None
+    if isinstance(exc, (TypeError, AttributeError)):
+        tb = exc.__traceback__
+        last = None
+        while tb is not None:
+            last = tb
+            tb = tb.tb_next
+        if last is not None:
+            fn = last.tb_frame.f_code.co_filename
+            if fn.startswith(HERE) or '/pyvc/' in fn or '/contracts/' in fn:
+                return 'raised inside the harness stand-in %s:%s' % (os.path.basename(fn), last.tb_frame.f_code.co_name)
+            # a call INTO a stand-in with the wrong arity is raised in the caller's frame
+            if isinstance(exc, TypeError) and ('positional argument' in str(exc) or 'unexpected keyword' in str(exc)):
+                import re as _re
+                m = _re.match(r'(\w+)\.(\w+)\(\)', str(exc))
+                if m and _is_standin_class(m.group(1)):
+                    return 'call of the harness stand-in %s.%s with an arity it does not model' % (m.group(1), m.group(2))
+    return None
 
 
 def _plain(v):
